@@ -56,6 +56,13 @@ func VP_C11_Cli() {
 	vpInitRepo()
 	w := zzvp.Root()
 	msg := zzvp.Str("msg", zzvp.Choose(zzvp.Param("msglen", 3)+1), vpMsgAlpha)
+	if zzvp.Choose(2) == 1 {
+		// a first line of several thousand bytes made of words (longer than the 4 KiB buffers of the standard library)
+		msg = ""
+		for i := 0; i < zzvp.Param("longline", 900); i++ {
+			msg += "word" + string(rune('0'+i%10)) + " "
+		}
+	}
 	zzvp.WriteFile(w+"/f", []byte("1"))
 	vpOK(zzvp.Run("add", "f"))
 	vpOK(zzvp.Run("commit", "-m", msg))
